@@ -443,8 +443,16 @@ def build_model(spec, kind='transmission', **model_kw):
     planet = Planet(planet_mass=spec['planet_mass'], planet_radius=spec['planet_radius'])
     star = BlackbodyStar(temperature=spec['star_T'], radius=spec['star_radius'],
                          distance=spec.get('star_distance', 1.0))
-    pressure = SimplePressureProfile(nlayers=spec['nlayers'], atm_min_pressure=spec['pmin'],
-                                     atm_max_pressure=spec['pmax'])
+    p_array = None
+    if spec.get('pressure_route') == 'array' and spec['nlayers'] >= 2:
+        # the layer pressures as the caller's OWN array (``pressure_profile_type = array``); ArrayPressureProfile works on
+        # the array it was given, so a caller who refills it in place moves the model's grid (see move_pressure_range)
+        from taurex.data.profiles.pressure import ArrayPressureProfile
+        p_array = layer_pressures(spec['pmax'], spec['pmin'], spec['nlayers'])
+        pressure = ArrayPressureProfile(p_array)
+    else:
+        pressure = SimplePressureProfile(nlayers=spec['nlayers'], atm_min_pressure=spec['pmin'],
+                                         atm_max_pressure=spec['pmax'])
     temperature = build_temperature(spec['temperature'], spec['pmin'], spec['pmax'], spec['nlayers'])
     if spec.get('makefree'):
         chem = build_makefree_chemistry(spec)
@@ -456,7 +464,26 @@ def build_model(spec, kind='transmission', **model_kw):
     klass = {'transmission': TransmissionModel, 'emission': EmissionModel, 'directimage': DirectImageModel}[kind]
     model = klass(planet=planet, star=star, pressure_profile=pressure, temperature_profile=temperature,
                   chemistry=chem, **model_kw)
+    if p_array is not None:
+        model._vmon_P_array = p_array
     return model
+
+
+def layer_pressures(pmax, pmin, n):
+    lev = 10 ** np.linspace(np.log10(pmax), np.log10(pmin), n + 1)
+    return np.sqrt(lev[:-1] * lev[1:])
+
+
+def move_pressure_range(model, pmax, pmin):
+    """The model's pressure range is changed by the route its pressure profile offers: the fitting parameters of the
+    standard profile, or -- for a profile built on the caller's array -- by refilling that array IN PLACE."""
+    arr = getattr(model, '_vmon_P_array', None)
+    if arr is not None:
+        arr[...] = layer_pressures(pmax, pmin, len(arr))
+        return 'array-refilled-in-place'
+    model['atm_max_pressure'] = pmax
+    model['atm_min_pressure'] = pmin
+    return 'fitting-parameters'
 
 
 def is_bound(spec, max_height_in_radii=2.0):
@@ -532,6 +559,7 @@ def spec_summary(spec):
         'T': spec['temperature']['kind'] + ('*scaled' if spec['temperature'].get('scale') else ''), 'magnitude': spec['magnitude'],
         'gases': [(g['mol'], g['kind']) for g in spec['gases']], 'fill': spec['fill_gases'],
         'chemistry': 'makefree+file' if spec.get('makefree') else 'free',
+        'pressure': spec.get('pressure_route', 'simple'),
         'tables': {m: list(t['xsec'].shape) for m, t in spec['tables'].items()},
         'contributions': [c if isinstance(c, str) else c['name'] for c in spec['contributions']],
         'interp': spec.get('interpolation'),
